@@ -46,11 +46,12 @@ static void drive(carquet_reader_t* rd, const char* mode) {
             if (nleaf != ncols || c >= nleaf) { mc_count("columns.schema-leaf-mismatch-not-read", 1); continue; }
             int w = tw(leaf_pt[c], leaf_tl[c]); if (w <= 0 || w > 4096 || leaf_pt[c] < 0 || leaf_pt[c] > 7) { mc_count("columns.type-width-unusable-not-read", 1); continue; }
             static const int64_t KS[] = { 0, 1, 3, 64 };
-            for (int pass = 0; pass < 2; pass++) {
+            for (int pass = 0; pass < 3; pass++) {      /* pass 2: skips beyond the reader's internal scratch size, then a read */
                 carquet_column_reader_t* cr = carquet_reader_get_column(rd, g, c, &err);
                 if (!cr) { if (err.code == CARQUET_OK) mc_fail("error-contract.get_column-null-with-ok-code", "%s rg %d col %d", mode, g, c); continue; }
                 (void)carquet_column_has_next(cr); (void)carquet_column_remaining(cr);
                 if (pass == 1) (void)carquet_column_skip(cr, 2);
+                if (pass == 2) { if (carquet_column_remaining(cr) <= 1024) { carquet_column_reader_free(cr); continue; } (void)carquet_column_skip(cr, 1500); (void)carquet_column_skip(cr, 1024); (void)carquet_column_skip(cr, 1025); (void)carquet_column_skip(cr, 1LL << 40); }
                 for (int ki = 0; ki < 4; ki++) {
                     int64_t k = KS[ki]; uint8_t* vb = mc_exact(NULL, (size_t)w * (size_t)k); int16_t* db = mc_exact(NULL, 2 * (size_t)k); int16_t* rb = mc_exact(NULL, 2 * (size_t)k);
                     int64_t n = carquet_column_read_batch(cr, vb, k, db, pass ? NULL : rb);
@@ -305,6 +306,15 @@ static void enumerate(void) {
           char d[96]; snprintf(d, sizeof d, "c04:wide;%d columns;names=%d bytes;last-name=%d bytes", K, base, len); mc_case_key(mc_hash(d, strlen(d), 0xc04f)); mc_nontrivial(); mc_feature("wide-valid-file");
           try_image(img.p, img.n, d); ref_buf_free(&img); ref_arena_free(&RA);
       } }
+    mc_stage("valid-long-files.skips-and-reads");
+    for (int k = 0; k < 6; k++) {
+        if (!mc_next()) continue;
+        rfile_t f; memset(&f, 0, sizeof f); f.ncols = 2; f.N = 5000; f.nrg = 1; f.codec = k & 1 ? CODEC_SNAPPY : CODEC_NONE; f.crc = true; f.pattern = 3; f.dict_offset_present = true;
+        static const int T2[] = { PT_INT32, PT_INT64, PT_BYTE_ARRAY }; f.col[0].ptype = T2[k / 2]; f.col[0].opt = k & 1; f.mask[0] = 0x5a5a5a5a5a5aull; f.uniform_page[0] = k >= 4 ? 700 : 0; f.col[1].ptype = PT_DOUBLE; f.uniform_page[1] = 2000;
+        ref_buf img; ref_buf_init(&img); static ref_coldata lc[4]; int np = 0; if (rf_build(&RA, &f, &img, NULL, 0, &np, lc)) mc_harness_error("reference writer failed (long file)");
+        char d[96]; snprintf(d, sizeof d, "c04:valid-long-file;%s", rf_desc(&f)); d[95] = 0; mc_case_key(mc_hash(d, strlen(d), 0xc04e)); mc_nontrivial(); mc_feature("valid-long-file");
+        try_image(img.p, img.n, d); ref_buf_free(&img); ref_arena_free(&RA);
+    }
     mc_stage("families.nesting-depth.payload-free-counts");
     { ref_buf img; ref_buf_init(&img); if (make_seed(0, &img)) mc_harness_error("seed"); ref_file rf; if (ref_pq_read(&RA, img.p, img.n, &rf, 0)) mc_harness_error("seed0");
       static const long DEPTH[] = { 1, 31, 32, 33, 1000, 100000, 1000000 };
